@@ -161,6 +161,12 @@ func main() {
 		{"crypto", "crypto"}, {"crypto/aeskw", "aeskw"}, {"crypto/padding", "padding"}, {"crypto/aescbcaead", "aescbcaead"},
 	}
 	var fns, helpers []fn
+	type fnSites struct {
+		pkg, recv, name string
+		sites           []site
+	}
+	var allSites []fnSites
+	var globalVars []string
 	consts := map[string]string{}
 	type sw struct {
 		fn    string
@@ -187,6 +193,7 @@ func main() {
 		}
 		// struct types of the package with []byte fields; string constants
 		structs := map[string][]string{}
+		pkgByteGlobals := map[string]bool{}
 		for _, f := range files {
 			for _, d := range f.Decls {
 				gd, ok := d.(*ast.GenDecl)
@@ -212,6 +219,27 @@ func main() {
 						}
 						structs[s.Name.Name] = bf
 					case *ast.ValueSpec:
+						if gd.Tok == token.VAR { // package-level state (error sentinels made by errors.New excepted)
+							for i, n := range s.Names {
+								if i < len(s.Values) {
+									if ce, ok := s.Values[i].(*ast.CallExpr); ok {
+										if se, ok := ce.Fun.(*ast.SelectorExpr); ok {
+											if x, ok := se.X.(*ast.Ident); ok && x.Name == "errors" && se.Sel.Name == "New" {
+												continue
+											}
+										}
+									}
+									if cl, ok := s.Values[i].(*ast.CompositeLit); ok && isByteSlice(cl.Type) {
+										pkgByteGlobals[n.Name] = true
+									}
+								}
+								if s.Type != nil && isByteSlice(s.Type) {
+									pkgByteGlobals[n.Name] = true
+								}
+								globalVars = append(globalVars, p.name+"."+n.Name)
+							}
+							continue
+						}
 						if gd.Tok != token.CONST || p.name != "crypto" {
 							continue
 						}
@@ -268,6 +296,18 @@ func main() {
 						work = append(work, c)
 					}
 				}
+			}
+		}
+		byteField := map[string]bool{}
+		for _, bf := range structs {
+			for _, f := range bf {
+				byteField[f] = true
+			}
+		}
+		for fd := range seen {
+			if len(byteParams(p.name, fd, structs)) > 0 {
+				allSites = append(allSites, fnSites{p.name, recvName(fd), fd.Name.Name,
+					analyse(p.name, fset, fd, decls, imports, byteField, pkgByteGlobals)})
 			}
 		}
 		for fd := range seen {
@@ -388,6 +428,31 @@ func main() {
 		fmt.Fprintf(&sb, "  ⟨%s, %s, %s, [%s]⟩%s\n", lean(f.pkg), lean(f.recv), lean(f.name), strings.Join(ps, ", "), sep)
 	}
 	sb.WriteString("]\n\n")
+	sort.Slice(allSites, func(i, j int) bool {
+		a, b := allSites[i], allSites[j]
+		return a.pkg+"|"+a.recv+"|"+a.name < b.pkg+"|"+b.recv+"|"+b.name
+	})
+	sort.Strings(globalVars)
+	sb.WriteString("/-- per function `(pkg, receiver, name)`: the sites `(kind, head, roots)` where memory reachable from a\n`[]byte` parameter is passed on, written, re-sliced with an upper bound or retained\n(syntactic may-alias analysis, see harness/cmd/factgen_c17/sites.go) -/\n")
+	sb.WriteString("def sites : List ((String × String × String) × List (String × String × String)) := [\n")
+	for i, fsi := range allSites {
+		var parts []string
+		for _, st := range fsi.sites {
+			parts = append(parts, "("+lean(st.kind)+", "+lean(st.head)+", "+lean(st.roots)+")")
+		}
+		sep := ","
+		if i == len(allSites)-1 {
+			sep = ""
+		}
+		fmt.Fprintf(&sb, "  ((%s, %s, %s), [%s])%s\n", lean(fsi.pkg), lean(fsi.recv), lean(fsi.name), strings.Join(parts, ",\n    "), sep)
+	}
+	sb.WriteString("]\n\n")
+	sb.WriteString("/-- package-level variables of the four packages (error sentinels made by `errors.New` excepted):\nstate that outlives a call (a buffer pool would appear here) -/\n")
+	gq := make([]string, len(globalVars))
+	for i, gname := range globalVars {
+		gq[i] = lean(gname)
+	}
+	sb.WriteString("def globals : List String := [" + strings.Join(gq, ", ") + "]\n\n")
 	sb.WriteString("/-- `(function, case clauses in source order, each with its algorithm names)` -/\n")
 	sb.WriteString("def switches : List (String × List (List String)) := [\n")
 	for i, s := range switches {
